@@ -60,8 +60,17 @@ def gen(cls, idx, rng, tier):
                        rng.randint(0, 40)])
     if cls == "scp_bigpayload":
         plen = rng.choice([255, 256, 257, 272, 1024, rng.randint(41, 1500)])
-    f["data"] = bytes(rng.getrandbits(8) for _ in range(plen))
+        if idx % 50 == 49:
+            # "payloads of any length": around what a 16-bit length field
+            # could hold, and well beyond
+            plen = rng.choice([65499, 65509, 65521, 65525, 65526, 65535,
+                               65536, 65537, 70001, 1 << 17])
+    f["data"] = rng.randbytes(plen) if plen > 2000 else \
+        bytes(rng.getrandbits(8) for _ in range(plen))
     if cls == "sdp":
+        if idx % 200 == 199:
+            f["data"] = rng.randbytes(rng.choice([65525, 65526, 65536,
+                                                   70001]))
         return dict(kind="sdp", f=f)
     k = rng.randint(0, 3)
     f["cmd_rc"] = rval(rng, 16, mode)
@@ -92,6 +101,17 @@ def gen(cls, idx, rng, tier):
     return dict(kind="scp", f=f)
 
 
+def short(v):
+    r = repr(v)
+    return r if len(r) < 90 else "%s... (%d bytes)" % (r[:80], len(v))
+
+
+def brief(f):
+    return {k: (v if not isinstance(v, bytes) or len(v) < 64 else
+                "%d bytes starting %s" % (len(v), v[:16].hex()))
+            for k, v in f.items()}
+
+
 def pack_sdp(f, body):
     return (b"\0\0" + bytes([0x87 if f["reply_expected"] else 0x07, f["tag"],
                              f["dest_port"] << 5 | f["dest_cpu"],
@@ -116,8 +136,8 @@ def run(case, ctx):
         for k, v in f.items():
             g = getattr(back, k)
             check(g == v and (k != "reply_expected" or g is v),
-                  "sdp-decode-field", "%s: got %r want %r" % (k, g, v),
-                  fields=f)
+                  "sdp-decode-field", "%s: got %s want %s" %
+                  (k, short(g), short(v)), fields=brief(f))
         check(bytes(back.bytestring) == want, "sdp-reencode", "")
         # decoding something else afterwards leaves this packet alone
         f3 = dict(f, tag=f["tag"] ^ 0xff, dest_x=(f["dest_x"] + 1) & 0xff,
@@ -158,7 +178,9 @@ def run(case, ctx):
         for name, v in exp.items():
             g = getattr(back, name)
             check(g == v and (v is not None or g is None), "scp-decode-field",
-                  "n_args=%d %s: got %r want %r" % (n, name, g, v), fields=f)
+                  "n_args=%d %s: got %s want %s" % (n, name, short(g),
+                                                    short(v)),
+                  fields=brief(f))
         check(bytes(back.bytestring) == want, "scp-reencode",
               "n_args=%d" % n, fields=f)
         if n == k:
